@@ -206,6 +206,13 @@ func TestReplayShortHardwareAddress(t *testing.T) {
 	if got := runL2(t, e, c); vstat.IsListed(want) && got != want {
 		t.Errorf("STALE known finding: the hlen 4 client no longer produces %s (case ended at %q)", want, got)
 	}
+	// KF-C06-36: the same defect seen from the all-zero address: a client with hlen 0 is cached under key 0, which is the key
+	// the program derives for 00:00:00:00:00:00 - a client nobody leased anything to
+	want = sig(sigMAC, "hlen-under-6", "answers-other-address")
+	z := l2Case{mode: "mac", macs: []mac6{m}, tails: make([][10]byte, 1), odd: &oddClient{htype: 1, hlen: 0}, absent: mac6{}}
+	if got := runL2(t, e, z); vstat.IsListed(want) && got != want {
+		t.Errorf("STALE known finding: the hlen 0 client no longer produces %s (case ended at %q)", want, got)
+	}
 	for _, o := range []oddClient{{htype: 1, hlen: 8}, {htype: 6, hlen: 6}, {htype: 1, hlen: 200}} {
 		o := o
 		copy(o.chaddr[:], []byte{2, 0x11, 0x22, 0x33, 0x44, 0x77, 9, 9})
